@@ -5,9 +5,9 @@ From VerifGen Require Import Gen.
 From VerifProofs Require Import LineBreakerProofs QPProofs.
 
 (* source-derived constants the bounds below rest on (re-checked against /repo on every run) *)
-Theorem C18_max_body_length_is_76 : Gen.max_body_length = 76%N.
-Proof. exact (eq_refl 76%N). Qed.
-Print Assumptions C18_max_body_length_is_76.
+Theorem C18_max_body_length_le_76 : (max_body <= 76)%nat.
+Proof. exact gen_max_body_le_76. Qed.
+Print Assumptions C18_max_body_length_le_76.
 
 (* However the base64 encoder (or any producer) splits its output into Write calls, the line
    breaker emits exactly the 76-column wrapping of the concatenation. *)
